@@ -22,7 +22,8 @@ OneFilter(f) == [kind |-> f.kind, name |-> f.name]
 ParseFails(j) ==
     LET d == j.lines IN
     IF ~DocumentedDiagram(d) THEN {<<"MACHINERY", "diagram-outside-documented-subset">>}
-    ELSE IF ~j.tags THEN (IF j.out = "error" THEN {} ELSE {<<"C06", "missing-tags-must-be-a-parsing-error">>})
+    ELSE IF j.tagform \notin TagForms THEN {<<"MACHINERY", "unknown-tag-form">>}
+    ELSE IF ~WellTagged(j.tagform) THEN (IF j.out = "error" THEN {} ELSE {<<"C06", "missing-tags-must-be-a-parsing-error">>})
     ELSE IF j.out = "error" THEN {<<"C06", "documented-diagram-rejected">>}
     ELSE (IF SeqToSet(j.components) = Components(d) THEN {}
           ELSE IF SeqToSet(j.components) \subseteq Components(d) THEN {<<"C06", "components-lost">>}
